@@ -351,6 +351,8 @@ static void run_solution(const orc::Sol& sol, const SolSpec& spec, uint64_t seed
               long double acc_coarse = stencil(0.002L), acc = stencil(h);
               g_fd++;
               // truncation (relative to the gradient's own scale) + roundoff of the stencil (relative to the size of the field values / step)
+              // (the field's rounding error is that of its TERMS - the oracle's e of the exact field -, not of a value that may nearly cancel)
+              { auto itx = c.out.find(ex.id); if (itx != c.out.end() && itx->second.has && std::isfinite(itx->second.ref.e)) fmax = std::max(fmax, (long double)itx->second.ref.e); }
               double fdtol = (sizeof(S) == 8 ? 2e-7 : 2e-9) * scale + 16 * u * (double)fmax / (double)h;
               if ((double)fabsl(acc - acc_coarse) > fdtol / 4) { g_fd_inconclusive++; g_fd--; }
               else
